@@ -3,6 +3,7 @@
 #include <boost/gil.hpp>
 #include <boost/gil/image_processing/convolve.hpp>
 #include <boost/gil/image_processing/kernel.hpp>
+#include <boost/gil/image_processing/filter.hpp>
 #include <cmath>
 #include "lib/trace.hpp"
 namespace gil = boost::gil;
@@ -99,6 +100,27 @@ static void conv2d_case(int w, int h, int K, int cx, int cy, vt::Rng& rng) {
     std::string k2 = "["; for (int j = 0; j < K; ++j) { if (j) k2 += ','; k2 += '['; for (int i = 0; i < K; ++i) { if (i) k2 += ','; k2 += std::to_string((long long)ker.at(i, j)); } k2 += ']'; } k2 += "]";
     J("Conv2D").num("w", w).num("h", h).raw("ker2", k2).num("cx", (long long)ker.center_x()).num("cy", (long long)ker.center_y()).raw("src", img_json(gil::const_view(src))).raw("dst", img_json(gil::const_view(dst))).emit();
 }
+// box_filter / blur (filter.hpp): K taps of weight 1 (gray8 -> gray32f), or of weight 1/K with K a power of two and a source of multiples
+// of K*K (gray8 -> gray8: every intermediate value is an integer, exact in the float accumulator). extend_padded is left out: the second
+// pass runs over the destination itself, whose padding the caller cannot provide.
+static void box_case(int w, int h, int K, int anchor, boundary opt, vt::Rng& rng) {
+    int c = anchor < 0 ? K / 2 : anchor;
+    std::vector<long long> ones(K, 1);
+    {   gil::gray8_image_t src(w, h); for (auto& p : gil::view(src)) p = gil::gray8_pixel_t((uint8_t)rng.below(40));
+        gil::gray32f_image_t dst(w, h); for (auto& p : gil::view(dst)) p = gil::gray32f_pixel_t((float)rng.range(-50, 50));
+        gil::gray32f_image_t before(dst);
+        gil::box_filter(gil::const_view(src), gil::view(dst), K, anchor, false, opt);
+        J("Box").str("fn", "box_filter").str("types", "gray8->gray32f").str("opt", optname(opt)).num("w", w).num("h", h).num("K", K).num("anchor", anchor).num("c", c).num("kden", 1)
+            .raw("src", img_json(gil::const_view(src))).raw("before", img_json(gil::const_view(before))).raw("dst", img_json(gil::const_view(dst))).emit(); }
+    if (K == 1 || K == 2 || K == 4) {
+        gil::gray8_image_t src(w, h); for (auto& p : gil::view(src)) p = gil::gray8_pixel_t((uint8_t)(K * K * rng.below(250 / (K * K))));
+        gil::gray8_image_t dst(w, h); for (auto& p : gil::view(dst)) p = gil::gray8_pixel_t((uint8_t)(K * K * rng.below(250 / (K * K))));
+        gil::gray8_image_t before(dst);
+        if (opt == boundary::extend_zero && (w + h) % 2) gil::blur(gil::const_view(src), gil::view(dst), K, anchor);
+        else gil::blur(gil::const_view(src), gil::view(dst), K, anchor, opt);
+        J("Box").str("fn", "blur").str("types", "gray8->gray8").str("opt", optname(opt)).num("w", w).num("h", h).num("K", K).num("anchor", anchor).num("c", c).num("kden", K * K)
+            .raw("src", img_json(gil::const_view(src))).raw("before", img_json(gil::const_view(before))).raw("dst", img_json(gil::const_view(dst))).emit(); }
+}
 static void extend_case(int w, int h, int n, boundary opt, vt::Rng& rng) {
     const int M = 4;
     gil::gray8_image_t big(w + 2 * M, h + 2 * M); for (auto& p : gil::view(big)) p = gil::gray8_pixel_t(rng.below(200));
@@ -135,6 +157,12 @@ int main(int argc, char** argv) {
         if (!mine()) continue; vt::Rng rng(args.seed * 5 + w + h * 7 + n * 3);
         J("Try").str("what", "extend").num("w", w).num("h", h).num("K", n).num("c", 0).str("opt", optname(opt)).emit();
         vt::isolated([&] { extend_case(w, h, n, opt, rng); });
+    }
+    for (int w = 0; w <= MW; ++w) for (int h = 0; h <= MH + 1; ++h) for (int K = 1; K <= MK; ++K) for (int a = -1; a < K; ++a)
+        for (auto opt : {boundary::output_ignore, boundary::output_zero, boundary::extend_zero, boundary::extend_constant}) {
+        if (!mine()) continue; vt::Rng rng(args.seed * 13 + w * 211 + h * 17 + K * 5 + a);
+        J("Try").str("what", "box").num("w", w).num("h", h).num("K", K).num("c", a).str("opt", optname(opt)).emit();
+        vt::isolated([&] { box_case(w, h, K, a, opt, rng); });
     }
     J("End").num("events", vt::T().events).emit(); vt::T().close(); return 0;
 }
